@@ -1,6 +1,7 @@
 package main
 
 import (
+	"go/constant"
 	"go/types"
 	"strconv"
 	"strings"
@@ -27,7 +28,43 @@ func (fx *fexec) externModel(key string, x *ssa.Call, f *ssa.Function, args []Va
 		repoModule + "/tm2/pkg/errors.New", repoModule + "/tm2/pkg/errors.Wrap", repoModule + "/tm2/pkg/errors.Wrapf":
 		vc.note("extern " + key + ": returns a fresh non-nil error (assumed)")
 		return nonNilErr(), true
-	case "fmt.Sprintf", "fmt.Sprint", "strconv.Itoa", "strconv.FormatInt":
+	case "strings.Contains", "strings.HasPrefix", "strings.HasSuffix", "strings.Index", "strings.Cut", "strings.TrimPrefix":
+		if !vc.strSMT {
+			break
+		}
+		vc.note("extern " + key + ": SMT string-theory semantics (assumed from its documentation)")
+		a, b := args[0].T, args[1].T
+		switch key {
+		case "strings.Contains":
+			return Val{Ty: rt, T: vc.define(x.Name(), app(SBool, "str.contains", a, b))}, true
+		case "strings.HasPrefix":
+			return Val{Ty: rt, T: vc.define(x.Name(), app(SBool, "str.prefixof", b, a))}, true
+		case "strings.HasSuffix":
+			return Val{Ty: rt, T: vc.define(x.Name(), app(SBool, "str.suffixof", b, a))}, true
+		case "strings.Index":
+			return Val{Ty: rt, T: vc.fromInt(vc.define(x.Name(), app(SInt, "str.indexof", a, b, intLit(0))), rt)}, true
+		case "strings.TrimPrefix":
+			la, lb := app(SInt, "str.len", a), app(SInt, "str.len", b)
+			return Val{Ty: rt, T: vc.define(x.Name(), ite(app(SBool, "str.prefixof", b, a), app("String", "str.substr", a, lb, sub(la, lb)), a))}, true
+		case "strings.Cut":
+			i := vc.define(x.Name()+"_i", app(SInt, "str.indexof", a, b, intLit(0)))
+			found := vc.define(x.Name()+"_ok", ge(i, intLit(0)))
+			la, lb := app(SInt, "str.len", a), app(SInt, "str.len", b)
+			before := vc.define(x.Name()+"_b", ite(found, app("String", "str.substr", a, intLit(0), i), a))
+			after := vc.define(x.Name()+"_a", ite(found, app("String", "str.substr", a, add(i, lb), sub(la, add(i, lb))), vc.strLit("")))
+			tup := rt.(*types.Tuple)
+			return Val{Ty: rt, Tup: []Val{{Ty: tup.At(0).Type(), T: before}, {Ty: tup.At(1).Type(), T: after}, {Ty: tup.At(2).Type(), T: found}}}, true
+		}
+	case "fmt.Sprintf":
+		if vc.strSMT {
+			if t, ok := fx.sprintfModel(x); ok {
+				vc.note("extern fmt.Sprintf with a constant format of literal text and %s verbs applied to string operands: the concatenation (assumed from its documentation)")
+				return Val{Ty: rt, T: vc.define(x.Name(), t)}, true
+			}
+		}
+		vc.note("extern " + key + ": returns an unconstrained string (assumed)")
+		return vc.freshResult(st, rt, x.Name()), true
+	case "fmt.Sprint", "strconv.Itoa", "strconv.FormatInt":
 		vc.note("extern " + key + ": returns an unconstrained string (assumed)")
 		return vc.freshResult(st, rt, x.Name()), true
 	case "strings.Compare":
@@ -170,4 +207,103 @@ func (fx *fexec) ifaceModel(name string, x *ssa.Call, recv Val, args []Val, st *
 	}
 	vc.note("interface method " + name + " replaced by its assumed contract")
 	return fx.applyContractSig(c, sig, vars, vc.eng.pkgTypes(c.Pkg, fx.fn.Pkg.Pkg), st, fx.posOf(x), x.Name()), true
+}
+
+// sprintfModel recognises fmt.Sprintf(<constant format>, s1, ..., sn) where the format
+// consists of literal text and plain %s verbs and every operand is a string-typed value
+// boxed at the call site; the result is then the concatenation. Anything else: no model.
+func (fx *fexec) sprintfModel(x *ssa.Call) (Term, bool) {
+	vc := fx.vc
+	cc := &x.Call
+	if len(cc.Args) != 2 {
+		return Term{}, false
+	}
+	fc, ok := cc.Args[0].(*ssa.Const)
+	if !ok || fc.Value == nil || fc.Value.Kind() != constant.String {
+		return Term{}, false
+	}
+	format := constant.StringVal(fc.Value)
+	var ops []ssa.Value
+	switch v := cc.Args[1].(type) {
+	case *ssa.Const: // nil variadic slice
+	case *ssa.Slice:
+		al, ok := v.X.(*ssa.Alloc)
+		if !ok || v.Low != nil || v.High != nil {
+			return Term{}, false
+		}
+		at, ok := al.Type().(*types.Pointer).Elem().Underlying().(*types.Array)
+		if !ok {
+			return Term{}, false
+		}
+		ops = make([]ssa.Value, at.Len())
+		for _, r := range *al.Referrers() {
+			switch ia := r.(type) {
+			case *ssa.IndexAddr:
+				ic, ok := ia.Index.(*ssa.Const)
+				if !ok {
+					return Term{}, false
+				}
+				idx := int(ic.Int64())
+				for _, rr := range *ia.Referrers() {
+					s, ok := rr.(*ssa.Store)
+					if !ok || idx < 0 || idx >= len(ops) || ops[idx] != nil {
+						return Term{}, false
+					}
+					mi, ok := s.Val.(*ssa.MakeInterface)
+					if !ok {
+						return Term{}, false
+					}
+					ops[idx] = mi.X
+				}
+			case *ssa.Slice, *ssa.DebugRef:
+			default:
+				return Term{}, false
+			}
+		}
+	default:
+		return Term{}, false
+	}
+	var parts []Term
+	lit := ""
+	k := 0
+	for i := 0; i < len(format); i++ {
+		if format[i] != '%' {
+			lit += string(format[i])
+			continue
+		}
+		if i+1 >= len(format) {
+			return Term{}, false
+		}
+		i++
+		switch format[i] {
+		case '%':
+			lit += "%"
+		case 's':
+			if k >= len(ops) || ops[k] == nil {
+				return Term{}, false
+			}
+			bt, ok := ops[k].Type().Underlying().(*types.Basic)
+			if !ok || bt.Info()&types.IsString == 0 || !types.Identical(ops[k].Type(), types.Typ[types.String]) {
+				return Term{}, false // named string types may have a String/Error method
+			}
+			if lit != "" {
+				parts = append(parts, vc.strLit(lit))
+				lit = ""
+			}
+			parts = append(parts, fx.val(ops[k]).T)
+			k++
+		default:
+			return Term{}, false
+		}
+	}
+	if k != len(ops) {
+		return Term{}, false
+	}
+	if lit != "" || len(parts) == 0 {
+		parts = append(parts, vc.strLit(lit))
+	}
+	if len(parts) == 1 {
+		return parts[0], true
+	}
+	return app("String", "str.++", parts...), true
 }
